@@ -162,7 +162,7 @@ def run_driver(lines):
         pass
     r = R()
     r.stdout = stdout
-    per = defaultdict(lambda: {'rej': [], 'obs': [], 'vio': [], 'end': None})
+    per = defaultdict(lambda: {'rej': [], 'obs': [], 'vio': [], 'vio_after': [], 'end': None})
     cov = {}
     for line in r.stdout.splitlines():
         k, _, rest = line.partition(' ')
@@ -180,8 +180,14 @@ def run_driver(lines):
             per[sid]['obs'].append({'line': int(ln), 'what': rest})
         elif k == 'VIO':
             ln, prop, clause, sigs, _, detail = (rest.split(' ', 5) + [''] * 6)[:6]
-            per[sid]['vio'].append({'line': int(ln), 'prop': prop, 'clause': clause,
-                                    'sigs': [] if sigs == 'sigs=-' else sigs[5:].split(','), 'detail': detail})
+            v = {'line': int(ln), 'prop': prop, 'clause': clause,
+                 'sigs': [] if sigs == 'sigs=-' else sigs[5:].split(','), 'detail': detail}
+            if sid.endswith('~'):
+                # found after the model and the code had already diverged in this scenario: the monitor ran on a
+                # resynchronised model state (used only as the concrete failing input of a broken correspondence)
+                per[sid[:-1]]['vio_after'].append(v)
+            else:
+                per[sid]['vio'].append(v)
         elif k == 'END':
             per[sid]['end'] = dict(x.split('=') for x in rest.split())
     return per, cov
@@ -326,9 +332,23 @@ def decide(prop, tier, seed, replay=None):
         out_lines.append(f'VIOLATION property={prop} replay={replay_path}')
         exit_code = 1
     elif diverged:
-        # correspondence broken on facets this property's theorems read: search for a concrete failing input
-        found = families.search_failing_input(prop, [by_sid[s]['sc'] for s, _ in diverged[:20]], seed, known_sigs)
+        # correspondence broken on facets this property's theorems read: search for a concrete failing input.
+        # 1. the diverging real histories themselves, followed to their end in the driver's degraded mode
+        found = None
+        for sid_, dv_ in diverged:
+            cand = [v for v in per[sid_]['vio_after'] if v['prop'] == prop and not (set(v['sigs']) & known_sigs)]
+            if cand:
+                found = {'scenario': by_sid[sid_]['sc'], 'cfg': by_sid[sid_]['cfg'], 'clause': cand[0]['clause'],
+                         'detail': cand[0]['detail'], 'found_in': sid_,
+                         'note': 'the monitor was evaluated on the real history after the model had been resynchronised to the observed state'}
+                dv_first = dv_
+                break
+        # 2. otherwise a wider search with model-independent monitors (if available)
+        if not found:
+            found = families.search_failing_input(prop, [by_sid[s]['sc'] for s, _ in diverged[:20]], seed, known_sigs)
         sid, dv = diverged[0]
+        if found and 'found_in' in found:
+            sid, dv = found['found_in'], dv_first
         info = by_sid[sid]
         if found:
             replay_path = os.path.join('replays', f"{prop}-{hashlib.sha256(json.dumps(found['scenario'], sort_keys=True).encode()).hexdigest()[:12]}.json")
